@@ -6,7 +6,7 @@ import GtModel.Proofs.ZeroBasic
 namespace GtModel
 open GtModel.EditMatrix (sharedPrefixLen trimLens middle solve cellAt charCells ones solve_zero)
 
-theorem cellAt_charCells (ma mb : Str) (r c : Nat) (hr : r < mb.length) (hc : c < ma.length) :
+theorem cellAt_charCellsZ (ma mb : Str) (r c : Nat) (hr : r < mb.length) (hc : c < ma.length) :
     cellAt (charCells ma mb) r c = if ma.getD c 0 = mb.getD r 0 then 0 else 1 := by
   simp [cellAt, charCells, List.getD_eq_getElem?_getD, List.getElem?_eq_getElem hr, List.getElem?_eq_getElem hc]
 
@@ -19,7 +19,7 @@ theorem strSubs_cost_zero (a b : Str) (h : (strSubs a b).2 = 0) : a = b := by
   simp only [ones, List.length_map] at hl hc
   have := trim_all 0 a b hl.symm (fun i hi => by
     have := hc i hi
-    rw [cellAt_charCells _ _ i i (by omega) hi] at this
+    rw [cellAt_charCellsZ _ _ i i (by omega) hi] at this
     simp at this
     simpa using this)
   exact list_eq_of_getD 0 a b this.1 (fun i hi => by simpa using this.2 i hi)
